@@ -57,6 +57,30 @@ Configuration mode "multi-step generation" of the legs "seq" and "conc" (cfg {"d
     are still running when the turn ends.  So the instance starts the SAME body for several conversations, before / between /
     during the turns of a conversation whose own generated flow is waiting.  Oracle unchanged (isolated replay).
 
+    Policy `inline`/3 (+ `iseed`): that share of the LLM's next-steps answers carries the MESSAGE of (about three in four of)
+    its bot steps inline - `bot <intent>` followed by an indented quoted text, the form the shipped prompt's examples show -
+    also for bot intents the configuration has no message for.  Which answers, and the text, are functions of what selects
+    the body: another kind of request / another history gets another text or none, so one conversation is handed a text
+    for a bot intent that a conversation served later comes to without one (or with its own, or through a configured flow).
+    Enumerated family "inline bot messages" (A, then B; A1 B1 A2).
+
+Shape "separator shift" of leg "seq" (a sixth of the generated sequential cases + enumerated family "separator shift")
+    Two conversations X, Y with the same role pattern whose transcripts have, turn by turn, the same ':'-joined text and
+    differ only in WHERE a ':' is a message boundary between a user text and the bot's reply (`a:b` -> `c` vs `a` -> `b:c`;
+    one or two such turns, either direction, in the first or a later turn), followed by 0-2 turns that are the same in both
+    (with or without ':' in them) and by turns of their own; schedules "X's common turns, Y's turns (Y stored its history
+    last), X goes on", the mirror image, or a drawn interleaving; optionally a third ordinary conversation.  For that the bot
+    texts must be constructible: the case carries a table "replies" {user text: bot text} and the LLM's message for a prompt
+    whose last user text is in the table is the table's text (general mode: the reply itself; dialog rails: the generated bot
+    message; there a second table "intents" {user text: user intent} names the intent the LLM picks for these texts - one
+    that is answered by a single LLM-generated message) - still a pure function of the prompt, the same in both runs;
+    everything else stays digest-driven.  Only a
+    user->bot boundary can move (after identical histories a pure LLM says the same).  The same relation is also generated
+    through supplied histories: a third of the re-spelled transcripts get one or two boundaries MOVED across a ':' (half of
+    them with nothing else changed, mostly under the other conversation's options).  Labels: a key-function independent model
+    says whether a request's proper prefix spells (same ':'-joined text) a different message list another conversation was
+    served before, with the same roles or not, and whether that list was stored after this conversation's previous turn.
+
 Leg "v2" (Colang 2.x, `import llm` / `activate llm continuation`, cfg {"v": 2, "dialog": "llmc"})
     2-3 conversations of 1-2 turns; every call passes the new user message and the state object returned by the previous call
     ({} on the first turn).  The LLM (pure function of the prompt, parameterised by the case's "llmc" policy) picks the user
@@ -117,11 +141,14 @@ HANG_IS_VIOLATION = False
 WALL = {"quick": 130, "thorough": 1400}
 MAX_STEPS = 400_000
 RULE = (
-    "three legs: seq and conc 4/9 of the generated cases each, v2 1/9, plus four enumerated families. seq: Colang 1.0 config (dialog rails on ~75%, 0-1 input rail of check/rewrite/shipped "
+    "three legs: seq and conc 4/9 of the generated cases each, v2 1/9, plus six enumerated families. seq: Colang 1.0 config (dialog rails on ~75%, 0-1 input rail of check/rewrite/shipped "
     "self-check, 0-1 output rail; LLM parameters in real fields or in model_kwargs; configuration mode MULTI-STEP GENERATION in a third of the seq / non-quiet conc cases with dialog rails: "
     "enable_multi_step_generation, half of the intents the LLM picks are handled by no flow, the generate_next_steps answer is then a flow BODY the runtime parses, adds and starts - a pure "
     "function of the prompt under a drawn policy: pool of 1/2/3/6 bodies of 1-3 bot steps, selected by the last user intent (same kind of request -> same body) or by the whole prompt, "
-    "0/1/3 of 3 bodies (drawn from 0,1,3,3) continuing after a wait for a later user turn; so the instance starts the same body for several conversations, also while an earlier conversation's generated flow is "
+    "0/1/3 of 3 bodies (drawn from 0,1,3,3) continuing after a wait for a later user turn, 0-3 of 3 answers (drawn from 0,1,2,3,3; choice varied by a drawn seed) carrying the "
+    "message of their bot steps INLINE (`bot <intent>` + indented quoted text, also for bot intents without configured message; text = function of what selects the body, so another "
+    "kind of request / another history gets another text or none; enumerated family 'inline bot messages': A then B then a third user / A1 B1 A2 where B comes to the bot intent A was "
+    "handed a text for - quick 2 cases, thorough up to 18); so the instance starts the same body for several conversations, also while an earlier conversation's generated flow is "
     "waiting; enumerated family 'generated flow bodies': same-intent conversations one after the other / A1 B1 A2 with waiting bodies / three conversations behind an input rail with "
     "prompt-selected bodies / three concurrent tasks - quick 4 cases, thorough 33) x 2-4 conversations of 1-3 turns; texts = 1-3 parts "
     "joined by ':' where a part is an atom of a collision-prone alphabet (a, b, a:b, ':', b:, JSON-looking strings, the predefined bot "
@@ -129,7 +156,14 @@ RULE = (
     "optional supplied history: user/assistant/context messages, or (2/3 of the later conversations) the transcript of an earlier "
     "conversation re-spelled - adjacent messages merged with ':', roles swapped, context turned into its JSON text, cut; optional "
     "per-conversation generation options (none at all, or llm_params temperature/max_tokens and/or log), in a third of the sequential cases one conversation is the twin of its predecessor (same messages, different options incl. rails switches), streaming requests; call "
-    "mode sync generate / one run_until_complete(generate_async) per turn / ALL turns awaited one after the other inside ONE coroutine "
+    "a sixth of the generated seq cases have the shape SEPARATOR SHIFT PAIR: two conversations with the same role pattern built from distinct ':'-free tokens whose transcripts have "
+    "turn by turn the same ':'-joined text and differ only in where a ':' is the boundary between a user text and the bot's reply ('a:b'->'c' vs 'a'->'b:c'; 1-2 turns, the boundary "
+    "moved in one or two of them, either direction), then 0-2 turns that are the same in both (1/4 of their texts contain ':'), then 1-2 / 0-1 turns of their own; half in general mode, "
+    "half on any configuration; schedule 'X common turns, Y all turns, X goes on' (1/2), its mirror image (1/4) or drawn; optional third ordinary conversation; the bot texts come "
+    "from a case table {user text: bot text} the prompt-pure LLM consults for the last user text of a message-generating prompt (with dialog rails a second table names the intent it picks for these texts: one answered by a single generated message via flow / flow with action / next-step generation; else digest-driven as before); the same relation through "
+    "supplied histories: a third of the re-spelled transcripts have 1-2 message boundaries moved across a ':' (half of them otherwise unchanged, 3/4 of those under the other conversation's "
+    "options); enumerated family 'separator shift' (pair x boundary in first/second turn x direction x common tail; supplied history with a moved boundary, three variants - quick 4 cases, thorough 34). "
+    "Call mode sync generate / one run_until_complete(generate_async) per turn / ALL turns awaited one after the other inside ONE coroutine "
     "(shared context, ~50%); a generated interleaving of all turns on ONE shared instance, full message histories passed every turn; in a quarter "
     "of the cases 3 / 8 / 40 / 135 single-turn conversations of other users (unique texts) are served between two steps of the interleaving "
     "(enumerated family 'many conversations in between': 140-300 of them between two turns of a 2-3 turn conversation on a dialog-rails "
@@ -150,13 +184,15 @@ RULE = (
     "coarse grid; same differential (returned message roles+texts, prompt multiset, LLM parameters); enumerated family of 2 (4) cases. "
     "Non-trivial: seq = a request finds, under the ':'-joined key of a proper prefix of its messages, "
     "an entry written by another conversation (identical prefix or colliding key), or overwrites another conversation's entry (harness "
-    "model of the cache); conc = LLM calls of two different tasks overlap without nesting in the loop's order of call starts/ends "
-    "(which refines virtual time); seq and conc in multi-step generation mode also: the instance started the same LLM-written flow body for two different conversations; "
+    "model of the cache), or has a proper prefix with the same ':'-joined text and roles as a DIFFERENT message list another conversation was served before (key-function independent); conc = LLM calls of two different tasks overlap without nesting in the loop's order of call starts/ends "
+    "(which refines virtual time); seq and conc in multi-step generation mode also: the instance started the same LLM-written flow body for two different conversations, or one conversation's body carried an inline text for a bot intent that another conversation came to later (with no / another text of its own); "
     "v2 = LLM-generated flows were added for at least two conversations on the shared instance. Distinct by case hash; only cases on which the property held are counted."
 )
 ASSUMPTIONS = [
     "the LLM is a pure function of the prompt (statement: 'and the LLM's answers to the prompts built from them'); fake rails are pure functions of the text they see",
-    "multi-step generation mode: the LLM writes well-formed bodies only (sequences of `bot <intent>` steps, optionally `user ...` / `user <intent>` followed by one more bot step); hostile bodies are C17's subject. The body is a function of the prompt alone, so two conversations asking the same kind of thing get the same body - what the instance does with a body it has seen before is the subject here",
+    "multi-step generation mode: the LLM writes well-formed bodies only (sequences of `bot <intent>` steps, optionally `user ...` / `user <intent>` followed by one more bot step; a bot step may carry its message inline as an indented quoted text, the documented Colang 1.0 form the shipped prompt's examples use); hostile bodies are C17's subject. The body is a function of the prompt alone, so two conversations asking the same kind of thing get the same body - what the instance does with a body it has seen before is the subject here",
+    "a text the LLM writes inline for a bot step of ONE conversation's generated flow belongs to that conversation: whether the instance uses it for that turn or asks the LLM for the message is not judged (both runs do the same); another conversation must see neither",
+    "separator-shift cases: the LLM's message (and, with dialog rails, the user intent it picks) for a prompt whose last user text is in the case table is the table's - a function of the prompt alone, identical in the shared run and the isolated replays; only boundaries between a user text and the reply that follows are moved (after identical histories a pure LLM gives identical replies)",
     "legs seq/conc: Colang 1.0 configurations (the events cache and the three-step generation are Colang 1.0 mechanisms); leg v2: Colang 2.x `llm continuation`, the caller hands the returned state object back ({} on the first turn)",
     "leg v2: the LLM is a pure function of the prompt, and the shipped generate_flow_from_name prompt does not contain the conversation - so a conversation that runs a flow another conversation made the LLM write shows in the prompts (one prompt less), not in the reply text",
     "leg v2: a conversation ends (its caller sends nothing more) after a turn in which the LLM wrote a flow that waits for the next user utterance - that flow and the library's reaction to the utterance race even when the conversation is served alone, so later turns could not be compared",
@@ -194,6 +230,17 @@ def _last_user_text(prompt):
     return prompt[i + 7: j] if j > i + 7 else prompt[i:]
 
 
+def _asked_text(prompt):
+    """The user text a message-generating prompt asks an answer for: the last `user "..."` line of the dialog prompts, the
+    last `User: ...` line of the general prompt (texts of this module contain no line breaks)."""
+    for line in reversed(str(prompt).split("\n")):
+        if line.startswith('user "') and line.rstrip().endswith('"'):
+            return line.rstrip()[6:-1]
+        if line.startswith("User: "):
+            return line[6:]
+    return None
+
+
 # ---- Colang 1.0 multi-step generation (cfg["ext"] == EXT_MS): the generate_next_steps answer is a flow BODY ----
 EXT_MS = "c15-ms"
 
@@ -222,7 +269,9 @@ MS_BODIES = [
 ]
 # continuation after a wait for a later user turn (any intent / a named one that a configured flow may handle as well)
 MS_TAILS = ["user ...\nbot offer help", "user ask time\nbot inform time", "user ...\nbot acknowledge request", "user express greeting\nbot suggest alternatives"]
-MS_POLICY_DEFAULT = {"bodies": 2, "by": "intent", "span": 0}
+MS_POLICY_DEFAULT = {"bodies": 2, "by": "intent", "span": 0, "inline": 0, "iseed": 0}
+# bot intents of MS_BODIES / MS_TAILS for which the configuration defines a message (every other one is LLM-generated)
+MS_CONFIGURED_BOT = ("offer help", "express greeting")
 
 
 def _ms_policy(cfg):
@@ -242,11 +291,49 @@ def _last_user_intent(prompt):
 
 def _ms_body(prompt, ms):
     """Flow body for a generate_next_steps prompt: a pure function of the prompt, shaped by the case's policy."""
-    d = _dg(_last_user_intent(prompt) if ms.get("by") == "intent" else prompt)
+    return _ms_body_sel(_last_user_intent(prompt) if ms.get("by") == "intent" else prompt, ms)
+
+
+def _ms_body_sel(sel, ms):
+    d = _dg(sel)
     body = MS_BODIES[d % max(1, min(int(ms.get("bodies", 1)), len(MS_BODIES)))]
     if (d // 11) % 3 < int(ms.get("span", 0)):
         body += "\n" + MS_TAILS[(d // 37) % len(MS_TAILS)]
-    return body
+    return _ms_inline(body, sel, ms)
+
+
+def _ms_inline(body, sel, ms):
+    """Policy "inline" (`inline`/3 of the answers): the LLM writes the steps WITH the message of a bot step inline - the
+    Colang 1.0 form `bot <intent>` followed by an indented quoted text - as completions of the shipped generate_next_steps
+    prompt (whose examples show exactly that form) often do.  Which answers carry texts, which of their bot steps (about three
+    in four), and the text itself are functions of what selects the body (`sel`: the last user intent, or the whole prompt):
+    requests of the same kind get the same text, a different kind of request / another history gets a different one or none
+    (`iseed` varies that choice from case to case)."""
+    n = int(ms.get("inline", 0))
+    if not n:
+        return body
+    dp = _dg(f"inline{int(ms.get('iseed', 0))}|{sel}")
+    if dp % 3 >= n:
+        return body
+    out = []
+    for x, line in enumerate(body.split("\n")):
+        out.append(line)
+        if line.startswith("bot ") and (dp // (3 * 4 ** x)) % 4 != 3:
+            out.append(f'  "INL{dp % 0xFFFFFF:06x} {line[4:]} written inline"')
+    return "\n".join(out)
+
+
+def _ms_inline_texts(body):
+    """{bot intent: text} of the bot steps of a body that carry their message inline."""
+    out, lines = {}, str(body).split("\n")
+    for a, b in zip(lines, lines[1:]):
+        if a.startswith("bot ") and b.startswith('  "'):
+            out[a[4:].strip()] = b.strip()
+    return out
+
+
+def _ms_bot_intents(body):
+    return [ln[4:].strip() for ln in str(body).split("\n") if ln.startswith("bot ")]
 
 
 def _ms_waits(body):
@@ -256,9 +343,14 @@ def _ms_waits(body):
 class DigestSession(fakes.Session):
     """Policy of the fakes for C15: every answer is a function of what the fake is shown, nothing else."""
 
-    def __init__(self, cfg, n_turns, lat=None, llmc=None):
+    def __init__(self, cfg, n_turns, lat=None, llmc=None, tables=None):
         super().__init__({"config": cfg, "turns": [{} for _ in range(n_turns)]}, cfg)
         self.lat = list(lat or [])
+        # case tables {user text: bot text} / {user text: user intent}: the LLM's message (the intent it picks) for a prompt whose
+        # last user text is in the table is the table's (still a function of the prompt alone, the same in every run of the
+        # case); everything else by digest
+        self.replies = dict((tables or {}).get("replies") or {})
+        self.intents = dict((tables or {}).get("intents") or {})
         self.llmc = dict(llmc or {})  # leg "v2": how the LLM writes flows (a parameter of the case, the same in every run of it)
 
     def rail_verdict(self, cat, idx, turn, text):
@@ -282,6 +374,10 @@ class DigestSession(fakes.Session):
         ms = _ms_policy(self.cfg)
         if task == "generate_user_intent":
             intents = INTENTS if ms is None else MS_INTENTS
+            if self.intents:
+                named = self.intents.get(_asked_text(prompt))
+                if named is not None:
+                    return "  " + named
             return "  " + intents[_dg(_last_user_text(prompt)) % len(intents)]
         if task == "generate_next_steps":
             if ms is not None:
@@ -296,6 +392,8 @@ class DigestSession(fakes.Session):
         if task == "general" and _v2_flow_name(prompt) is not None:
             return self._v2_flow_body(prompt, d)
         text = REPLY_ATOMS[(d // 3) % len(REPLY_ATOMS)] if d % 3 == 0 else f"LLM{d % 0xFFFFFFFF:08x} says so"
+        if self.replies and task in ("general", "generate_bot_message"):
+            text = self.replies.get(_asked_text(prompt), text)
         if task == "generate_bot_message":
             return f'  "{text}"'
         return text
@@ -728,12 +826,19 @@ def _reply_message(norm):
     return {"role": "assistant", "content": r}
 
 
+def _tables(case):
+    """The case's LLM tables (shape "separator shift"): None, or {"replies": {user text: bot text}, "intents": {user text: intent}}."""
+    if not case.get("replies") and not case.get("intents"):
+        return None
+    return {"replies": case.get("replies") or {}, "intents": case.get("intents") or {}}
+
+
 class Conv:
     """A conversation being served: message history as the caller keeps it + the fakes' session."""
 
-    def __init__(self, cid, cfg, init, n_turns, options=None, stream=False, lat=None):
+    def __init__(self, cid, cfg, init, n_turns, options=None, stream=False, lat=None, tables=None):
         self.cid = cid
-        self.session = DigestSession(cfg, n_turns, lat)
+        self.session = DigestSession(cfg, n_turns, lat, tables=tables)
         self.session.cid = cid
         self.messages = [dict(m) for m in init]
         self.options = options
@@ -895,10 +1000,29 @@ def instance_view(messages, options):
     return [{"role": "context", "content": {"generation_options": GenerationOptions(**options).dict()}}] + list(messages)
 
 
+def _joined(msgs):
+    """(':'-joined text, role letters) of a message list - what is left of it when the message boundaries are forgotten."""
+    ms = [m for m in msgs if m.get("role") in ("user", "assistant", "context")]
+    return ":".join(_item(m) for m in ms), "".join(m["role"][0] for m in ms)
+
+
 class CacheModel:
     def __init__(self):
         self.entries = {}  # lossy key -> {"exact", "conv", "tainted", "foreign"}
         self.own = defaultdict(set)  # conversation -> exact lists it stored itself
+        self.spelled = defaultdict(dict)  # ':'-joined text -> {exact list: (conversation that was served it, role letters)}
+
+    def spelling(self, cid, M):
+        """Key-function independent label: the longest proper prefix of request M that has the same ':'-joined text as a
+        DIFFERENT message list another conversation was served on the instance (same_roles: also the same roles, i.e. only
+        the places where a ':' is a message boundary differ)."""
+        for p in range(len(M) - 1, 0, -1):
+            text, roles = _joined(M[:p])
+            exact = _canon(M[:p])
+            for other, (conv, r) in self.spelled.get(text, {}).items():
+                if other != exact and conv != cid:
+                    return {"p": p, "writer": conv, "same_roles": r == roles}
+        return None
 
     def lookup(self, cid, M):
         """What a longest-prefix lookup keyed by the lossy key finds for request M of conversation cid."""
@@ -920,6 +1044,8 @@ class CacheModel:
         overwrite = prev is not None and prev["exact"] != _canon(L)
         self.entries[k] = {"exact": _canon(L), "conv": cid, "tainted": bool(hit and hit["tainted"]), "foreign": bool(hit and hit["foreign"])}
         self.own[cid].add(_canon(L))
+        text, roles = _joined(L)
+        self.spelled[text][_canon(L)] = (cid, roles)
         return overwrite
 
 
@@ -933,19 +1059,38 @@ def _ms_facts(cfg, convs, labels):
     ms = _ms_policy(cfg)
     if ms is None:
         return False
-    labels += ["multi-step-generation", f"ms-bodies={ms['bodies']}", "ms-body-by=" + str(ms["by"]), f"ms-waiting-body-share={ms['span']}/3"]
+    labels += ["multi-step-generation", f"ms-bodies={ms['bodies']}", "ms-body-by=" + str(ms["by"]), f"ms-waiting-body-share={ms['span']}/3", f"ms-inline-message-share={ms['inline']}/3"]
     started = []  # (tick of the generate_next_steps call, conversation, body)
+    reached = []  # (tick, conversation, bot intent): the conversation came to that bot step (LLM asked for its message)
     for c in convs:
         for o in c.obs:
             for rc in o["raw_calls"]:
                 if rc["task"] == "generate_next_steps" and rc.get("answer") is not None:
                     started.append((rc["k0"], c.cid, str(rc["answer"])))
+                elif rc["task"] == "generate_bot_message" and isinstance(rc.get("prompt"), str):
+                    tail = rc["prompt"].rstrip().split("\n")[-1]
+                    if tail.startswith("bot "):
+                        reached.append((rc["k0"], c.cid, tail[4:].strip()))
     started.sort()
     if not started:
         return False
     labels.append("llm-wrote-a-flow-body")
-    if any(len(b.split("\n")) > 1 for _, _, b in started):
+    if any(len(_ms_bot_intents(b)) > 1 for _, _, b in started):
         labels.append("flow-body-of-several-steps")
+    inline_nt = False
+    for k1, c1, b1 in started:
+        texts = _ms_inline_texts(b1)
+        if not texts:
+            continue
+        labels.append("flow-body-carries-inline-bot-message")
+        if any(i not in MS_CONFIGURED_BOT for i in texts):
+            labels.append("inline-message-for-bot-intent-without-configured-message")
+        for k2, c2, intent in reached:
+            if c2 != c1 and k2 > k1 and intent in texts and not any(c3 == c2 and _ms_inline_texts(b3).get(intent) == texts[intent] for _, c3, b3 in started):
+                # (the conversation that comes to the bot step later was given no text for it, or another one: every
+                # generate_bot_message call of a judged turn is one the isolated replay makes too)
+                labels.append("bot-intent-written-inline-for-one-conversation-reached-later-by-another")
+                inline_nt = True
     if any(_ms_waits(b) for _, _, b in started):
         labels.append("generated-flow-waits-for-a-later-user-turn")
     same = False
@@ -960,7 +1105,7 @@ def _ms_facts(cfg, convs, labels):
                 labels.append("conversation-continues-after-another-got-the-same-body")
     if same:
         labels.append("same-flow-body-started-for-two-conversations")
-    return same
+    return same or inline_nt
 
 
 # ------------------------------------------------------------------------------------------------
@@ -1015,10 +1160,38 @@ def _respell(spec, i, iso):
         orig = grp[0]["role"]
         role = ("assistant" if orig == "user" else "user") if choice else (orig if orig in ("user", "assistant") else "user")
         out.append({"role": role, "content": ":".join(_item(m) for m in grp)})
+    for where, direction in spec.get("shift") or []:
+        out = _shift_boundary(out, int(where), int(direction))
     cut = int(spec.get("cut") or 0)
     if cut:
         out = out[: max(1, len(out) - cut % len(out))]
     return out
+
+
+def _shift_boundary(msgs, where, direction):
+    """Moves the boundary between two adjacent text messages across one ':' - direction 0: the part after the last ':' of the
+    earlier message becomes the head of the later one (`a:b` / `c` -> `a` / `b:c`), 1: the part before the first ':' of the later
+    message becomes the tail of the earlier one.  Number of messages, roles and the ':'-joined text stay what they were; only
+    WHERE a ':' is a message boundary changes.  The `where`-th boundary (cyclically) at which that is possible without leaving
+    an empty message; no change when there is none."""
+    n = len(msgs)
+    for off in range(max(0, n - 1)):
+        b = (where + off) % (n - 1)
+        x, y = msgs[b], msgs[b + 1]
+        if not all(m["role"] in ("user", "assistant") and isinstance(m["content"], str) for m in (x, y)):
+            continue
+        if direction % 2 == 0:
+            head, sep, tail = x["content"].rpartition(":")
+            new = (head, tail + ":" + y["content"])
+        else:
+            head, sep, tail = y["content"].partition(":")
+            new = (x["content"] + ":" + head, tail)
+        if not sep or not new[0] or not new[1]:
+            continue
+        out = [dict(m) for m in msgs]
+        out[b]["content"], out[b + 1]["content"] = new
+        return out
+    return msgs
 
 
 def _resolve_init(init, i, iso):
@@ -1085,7 +1258,7 @@ def _seq_isolated(case, problems):
         rec = {"replies": [], "keys": [], "texts": [], "obs": [], "init": None, "transcripts": [], "ptrace": pipe.ptrace}
         iso[i] = rec
         rec["init"] = _resolve_init(spec.get("init", []), i, iso)
-        conv = Conv(i, cfg, rec["init"], len(spec["users"]), _conv_options(spec), bool(spec.get("stream")))
+        conv = Conv(i, cfg, rec["init"], len(spec["users"]), _conv_options(spec), bool(spec.get("stream")), tables=_tables(case))
         _drive(_seq_isolated_one(i, spec, pipe, conv, rec, iso, problems), api)
     return iso
 
@@ -1141,7 +1314,7 @@ def _filler_isolated(case, ks, problems):
     out = {}
     for k in ks:
         pipe = Pipe(cfg, case["llm"])
-        conv = Conv(FILLER + k, cfg, [], 1)
+        conv = Conv(FILLER + k, cfg, [], 1, tables=_tables(case))
 
         def one(pipe=pipe, conv=conv, k=k):
             o = yield (pipe, conv, 0, _filler_text(k, atom))
@@ -1159,10 +1332,16 @@ def run_seq(case, problems):
             labels.append(f"{cat}-rail={k}")
     iso = _seq_isolated(case, problems)
     shared = Pipe(cfg, case["llm"])
-    convs = [Conv(i, cfg, iso[i]["init"], len(s["users"]), _conv_options(s), bool(s.get("stream"))) for i, s in enumerate(case["convs"])]
+    convs = [Conv(i, cfg, iso[i]["init"], len(s["users"]), _conv_options(s), bool(s.get("stream")), tables=_tables(case)) for i, s in enumerate(case["convs"])]
+    if case.get("replies"):
+        labels.append("llm-replies-from-case-table" + ("+intents" if case.get("intents") else ""))
+    if case.get("shape"):
+        labels.append("shape=" + str(case["shape"]))
     for s in case["convs"]:
         if any("respell" in m for m in s.get("init", [])):
             labels.append("supplied-history-spells-other-transcript")
+            if any(m.get("shift") for m in s.get("init", []) if "respell" in m):
+                labels.append("supplied-history-with-a-message-boundary-moved-across-':'")
         elif s.get("init"):
             labels.append("supplied-history")
         if s.get("log"):
@@ -1212,7 +1391,7 @@ def _seq_fillers(case, shared, problems, diverged, fill_iso, step):
     _, n, atom = _between(case)
     cfg = case["config"]
     for k in range(n):
-        conv = Conv(FILLER + k, cfg, [], 1)
+        conv = Conv(FILLER + k, cfg, [], 1, tables=_tables(case))
         text = _filler_text(k, atom)
         o = yield (shared, conv, 0, text)
         where = f"[seq] conversation in between #{k} of {n} (after step {step}, request {json.dumps(conv.request(text))[:200]})"
@@ -1246,6 +1425,12 @@ def _seq_shared(case, shared, convs, iso, sched, model, labels, problems, unjudg
         text = iso[i]["texts"][t]
         M = instance_view(conv.request(text), conv.options)
         hit = model.lookup(i, M)
+        sp = model.spelling(i, M)
+        if sp:
+            labels.append("prefix-spells-history-of-other-conversation-" + ("with-other-boundaries-same-roles" if sp["same_roles"] else "with-other-roles-or-message-count"))
+            if sp["same_roles"]:
+                labels.append("...that-history-was-stored-" + ("after-this-conversation's-previous-turn" if any(x == sp["writer"] for x in sched[max([y for y in range(step) if sched[y] == i], default=0):step]) else "earlier"))
+                state["nt"] = True
         where = f"[seq] conversation {i} turn {t} (step {step} of schedule {sched}, request {json.dumps(conv.request(text))[:300]})"
         o = yield (shared, conv, t, text)
         if hit:
@@ -1808,9 +1993,17 @@ def _st_init(draw, i):
         # the transcript of an earlier conversation, spelled differently (the shape that makes ':'-joined keys collide)
         merge = draw(st.lists(st.sampled_from([False, False, True]), min_size=1, max_size=5))
         roles = draw(st.lists(st.sampled_from([0, 0, 1]), min_size=1, max_size=5))
-        if not any(merge) and not any(roles) and draw(st.sampled_from([True, True, True, False])):
+        # a third of the re-spelled transcripts: one or two message boundaries moved across a ':' (`a:b` / `c` -> `a` / `b:c`);
+        # half of those with nothing else changed - same number of messages, same roles, same ':'-joined text
+        shift = draw(st.lists(st.tuples(st.integers(0, 5), st.integers(0, 1)).map(list), min_size=1, max_size=2)) if draw(st.sampled_from([True, False, False])) else []
+        if shift and draw(st.booleans()):
+            merge, roles = [False], [0]
+        if not shift and not any(merge) and not any(roles) and draw(st.sampled_from([True, True, True, False])):
             roles[0] = 1  # an unchanged transcript is the same conversation for the instance (not judged): keep that rare
-        out.append({"respell": [draw(st.integers(0, i - 1)), draw(st.integers(0, 2))], "merge": merge, "roles": roles, "cut": draw(st.sampled_from([0, 0, 0, 1, 2]))})
+        spec = {"respell": [draw(st.integers(0, i - 1)), draw(st.integers(0, 2))], "merge": merge, "roles": roles, "cut": draw(st.sampled_from([0, 0, 0, 1, 2]))}
+        if shift:
+            spec["shift"] = shift
+        out.append(spec)
         n = draw(st.sampled_from([0, 0, 0, 1]))
     else:
         n = draw(st.sampled_from([0, 0, 0, 1, 2, 2, 3]))
@@ -1825,7 +2018,7 @@ def _st_init(draw, i):
     return out
 
 
-MS_POLICIES = {"bodies": [1, 2, 2, 3, 6], "by": ["intent", "intent", "prompt"], "span": [0, 1, 3, 3]}
+MS_POLICIES = {"bodies": [1, 2, 2, 3, 6], "by": ["intent", "intent", "prompt"], "span": [0, 1, 3, 3], "inline": [0, 1, 2, 3, 3], "iseed": [0, 1, 2, 3, 4, 5]}
 
 
 @st.composite
@@ -1853,6 +2046,12 @@ def _seq_case(draw, llms=None):
                 "mt": draw(st.sampled_from([None, None, None, None, 16])),
             }
         )
+    for i, c in enumerate(convs):
+        # a supplied history that differs from another conversation's transcript only in where a ':' is a message boundary:
+        # mostly under that conversation's options too (the options are part of what the instance is given)
+        pure = [m for m in c["init"] if m.get("shift") and not any(m["merge"]) and not any(m["roles"])]
+        if pure and i and draw(st.sampled_from([True, True, True, False])):
+            c.update({k: convs[int(pure[0]["respell"][0]) % i][k] for k in ("log", "temp", "mt")})
     if draw(st.sampled_from([True, False, False])):
         # twins: the same messages under DIFFERENT generation options are different conversations (the options are part of
         # what the instance is given); the twin is scheduled around its sibling's turns
@@ -1872,6 +2071,136 @@ def _seq_case(draw, llms=None):
     if n_between:
         case["between"] = {"after": draw(st.integers(0, total - 1)), "n": n_between, "atom": draw(st.sampled_from(CONC_ATOMS))}
     return case
+
+
+# ---- shape "separator shift pair" (leg seq): two conversations that differ only in WHERE a ':' is a message boundary ----
+SHIFT_TOKENS = ["hello", "world", "ok", "next", "fine", "yes", "no", "sure", "thanks", "bye", "one", "two", "three", "left", "right", "up", "down", "red", "green", "blue",
+                "tea", "milk", "rain", "sun", "north", "south"]
+
+
+def _order_for(schedule, lens):
+    """The `order` list under which `_seq_schedule` serves the turns in the given order of conversations."""
+    left, out = list(lens), []
+    for i in schedule:
+        alive = [x for x, n in enumerate(left) if n]
+        out.append(alive.index(i))
+        left[i] -= 1
+    return out
+
+
+# user intents of the shipped test configuration that are answered by exactly ONE LLM-generated bot message: through a flow,
+# through a flow with an action before the message, and through generate_next_steps (no flow handles the intent)
+SHIFT_INTENTS = [fakes.ROUTES[r][0] for r in ("llm", "act_llm", "next_llm")]
+
+
+def _mk_shift_case(tokens, pre, tail, extra, cfg, llm, api, schedule="xyx", order=None, third=None, routes=(0, 1, 2)):
+    """Conversations X and Y with the same role pattern and - turn by turn - the same ':'-joined text, built from distinct
+    ':'-free tokens.  pre: [{"u": n, "r": n, "shift": 0|1|2}] - a turn with `shift` has one token that is the tail of the user
+    text in one conversation and the head of the bot's reply in the other (1: X `a:b` -> `c`, Y `a` -> `b:c`; 2: the other way
+    round); tail: [{"u": n, "r": n}] turns that are the same in both; extra = (further turns of X, of Y) with texts of their
+    own.  The replies come from the case table "replies" {user text: bot text} (the LLM stays a function of the prompt; only
+    a user->bot boundary can move: after identical histories a pure LLM says the same).  schedule "xyx": X's common turns,
+    then Y's (so Y stored its history last), then the rest; "yxy": the mirror image; None: `order` as drawn."""
+    it = iter(tokens)
+    take = lambda n: [next(it) for _ in range(n)]  # noqa: E731
+    xs, ys, table = [], [], {}
+    for turn in pre:
+        u, r = take(max(1, int(turn["u"]))), take(max(1, int(turn["r"])))
+        if turn.get("shift"):
+            m = take(1)
+            a, b = (u + m, r), (u, m + r)
+            (xu, xr), (yu, yr) = (a, b) if turn["shift"] == 1 else (b, a)
+        else:
+            (xu, xr), (yu, yr) = (u, r), (u, r)
+        xs.append(xu)
+        ys.append(yu)
+        table[":".join(xu)] = ":".join(xr)
+        table[":".join(yu)] = ":".join(yr)
+    for turn in tail:
+        u, r = take(max(1, int(turn["u"]))), take(max(1, int(turn["r"])))
+        xs.append(u)
+        ys.append(u)
+        table[":".join(u)] = ":".join(r)
+    common = len(xs)
+    xs += [take(1) for _ in range(int(extra[0]))]
+    ys += [take(1) for _ in range(int(extra[1]))]
+    conv = lambda users: {"init": [], "users": users, "log": False, "stream": False, "temp": None, "mt": None}  # noqa: E731
+    convs = [conv(xs), conv(ys)] + ([third] if third else [])
+    lens = [len(c["users"]) for c in convs]
+    if schedule in ("xyx", "yxy"):
+        a, b = (0, 1) if schedule == "xyx" else (1, 0)
+        sched = [a] * common + [b] * lens[b] + [a] * (lens[a] - common) + ([2] * lens[2] if third else [])
+        order = _order_for(sched, lens)
+    case = {"leg": "seq", "shape": "separator-shift-pair", "config": cfg, "llm": llm, "api": api, "convs": convs, "order": list(order or []), "replies": table}
+    if cfg.get("dialog"):
+        # with dialog rails the reply is the table's text where the LLM names an intent that is answered by one generated message
+        case["intents"] = {u: SHIFT_INTENTS[int(routes[x % len(routes)]) % len(SHIFT_INTENTS)] for x, u in enumerate(table)}
+    return case
+
+
+@st.composite
+def _shift_case(draw, llms=None):
+    """A sixth of the sequential cases.  Half of them in general mode (one LLM call per turn, the reply is the LLM's text),
+    the others on any configuration (with dialog rails a second table names the user intent the LLM picks for the table's
+    user texts - one that is answered by a single LLM-generated message, via a flow / a flow with an action / next-step
+    generation; rails may still refuse or rewrite: labels tell how often the pair came out as planned)."""
+    general = [c for c in SEQ_CFGS if not c["dialog"]]
+    cfg = draw(st.sampled_from(general)) if draw(st.booleans()) else draw(st.sampled_from(SEQ_CFGS))
+    tokens = draw(st.permutations(SHIFT_TOKENS))
+    n_pre = draw(st.sampled_from([1, 1, 2]))
+    pre = [{"u": draw(st.sampled_from([1, 1, 2])), "r": draw(st.sampled_from([1, 1, 2])), "shift": draw(st.sampled_from([0, 1, 1, 2]))} for _ in range(n_pre)]
+    if not any(t["shift"] for t in pre):
+        pre[draw(st.integers(0, n_pre - 1))]["shift"] = 1
+    tail = [{"u": draw(st.sampled_from([1, 1, 1, 2])), "r": draw(st.sampled_from([1, 1, 1, 1, 2]))} for _ in range(draw(st.sampled_from([0, 1, 1, 2]) if n_pre == 1 else st.sampled_from([0, 1])))]
+    extra = (draw(st.sampled_from([1, 1, 2])), draw(st.sampled_from([0, 0, 1])))
+    third = None
+    if draw(st.sampled_from([True, False, False])):
+        third = {"init": draw(_st_init(2)), "users": draw(st.lists(st.lists(_st_part(2), min_size=1, max_size=2), min_size=1, max_size=2)), "log": draw(st.sampled_from([False, False, True])),
+                 "stream": False, "temp": draw(st.sampled_from([None, None, 0.2])), "mt": None}
+    schedule = draw(st.sampled_from(["xyx", "xyx", "yxy", None]))
+    total = n_pre + len(tail)
+    total = 2 * total + sum(extra) + (len(third["users"]) if third else 0)
+    order = draw(st.lists(st.integers(0, 2), min_size=total, max_size=total))
+    routes = draw(st.lists(st.integers(0, 2), min_size=1, max_size=6))
+    return _mk_shift_case(tokens, pre, tail, extra, cfg, draw(st.sampled_from(llms or LLMS)), draw(st.sampled_from(["sync", "async", "onecoro", "onecoro"])), schedule, order, third, routes)
+
+
+def _shift_family(tier):
+    """Deterministic family "separator shift": (a) the pair in general mode, X's common turns, Y's turns, then X goes on - the
+    boundary moved in the first / in the second turn, with and without common turns after it, both directions; (b) the same
+    through a supplied history: a conversation that starts from another one's transcript with one boundary moved.
+    Quick 4 cases; thorough: x configurations x call modes x LLM variants."""
+    general = [c for c in SEQ_CFGS if not c["dialog"]][0]
+    shapes = [
+        ([{"u": 1, "r": 1, "shift": 1}], [{"u": 1, "r": 1}], (1, 0), "xyx"),
+        ([{"u": 1, "r": 1, "shift": 2}], [], (1, 1), "yxy"),
+        ([{"u": 1, "r": 1, "shift": 0}, {"u": 2, "r": 1, "shift": 1}], [{"u": 1, "r": 1}], (1, 0), "xyx"),
+        ([{"u": 1, "r": 2, "shift": 2}], [{"u": 1, "r": 1}, {"u": 2, "r": 1}], (2, 0), "xyx"),
+    ]
+    plans = [(0, general, "field", "async"), (2, general, "kw0", "onecoro")]
+    if tier != "quick":
+        plans = [(sh, cfg, llm, api) for sh in range(len(shapes)) for cfg, llm, api in ((general, "field", "async"), (SEQ_CFGS[0], "field", "sync"), (SEQ_CFGS[3], "kw0", "onecoro"), (SEQ_CFGS[6], "field", "onecoro"))]
+    for n, (sh, cfg, llm, api) in enumerate(plans):
+        pre, tail, extra, schedule = shapes[sh]
+        yield _mk_shift_case(SHIFT_TOKENS[n:] + SHIFT_TOKENS[:n], pre, tail, extra, cfg, llm, api, schedule)
+    # (b) supplied history = the other conversation's transcript with one boundary moved, then one more turn of each
+    conv = lambda users, init=(): {"init": list(init), "users": users, "log": False, "stream": False, "temp": None, "mt": None}  # noqa: E731
+    variants = [  # (first user text of X, reply table, [boundary, direction])
+        (["hello", "world"], {"hello:world": "ok", "next": "fine"}, [0, 0]),
+        (["hello"], {"hello": "world:ok", "next": "fine"}, [0, 1]),
+        (["hello", "world"], {"hello:world": "ok", "next": "left:right"}, [2, 1]),
+    ]
+    plans = [(general, "field", "sync", 0), (general, "kw0", "onecoro", 1)]
+    if tier != "quick":
+        plans = [(cfg, llm, api, v) for cfg in (general, SEQ_CFGS[0], SEQ_CFGS[4]) for llm, api in (("field", "sync"), ("kw1", "onecoro")) for v in range(len(variants))]
+    for cfg, llm, api, v in plans:
+        first, table, shift = variants[v]
+        case = {"leg": "seq", "shape": "separator-shift-history", "config": cfg, "llm": llm, "api": api, "replies": table,
+                "convs": [conv([first, ["next"], ["c"]]), conv([["b"]], [{"respell": [0, 1], "merge": [False], "roles": [0], "cut": 0, "shift": [shift]}])],
+                "order": [0, 0, 1, 0]}
+        if cfg.get("dialog"):
+            case["intents"] = {u: SHIFT_INTENTS[(x + v) % len(SHIFT_INTENTS)] for x, u in enumerate(table)}
+        yield case
 
 
 @st.composite
@@ -2067,8 +2396,61 @@ def _ms_family(tier):
                 for a, st_, lat in zip(ca, (0, 0.05, 1.0), ([0.1, 0.3], [0.2, 0.1], [0]))]}
 
 
+def _ms_inline_plans():
+    """(policy, intent of A, intent of B, bot intent, how B differs) for the family "inline bot messages": under the policy
+    (bodies selected by the last user intent, so this can be worked out here) the body the LLM writes for A's kind of request
+    carries an inline text for a bot intent WITHOUT configured message, and B - a request of another kind - comes to the same
+    bot intent with no text of its own ("no-text"), with another text ("other-text"), or through a flow of the configuration
+    ("configured-flow": `flow status` -> `bot inform status`)."""
+    out = []
+    for inline, bodies, iseed in [(i, b, s_) for s_ in range(6) for i in (1, 2, 3) for b in (1, 2, 3, 6)]:
+        if True:
+            ms = {"bodies": bodies, "by": "intent", "span": 0, "inline": inline, "iseed": iseed}
+            for ia in MS_UNHANDLED:
+                ta = {k: v for k, v in _ms_inline_texts(_ms_body_sel("user " + ia, ms)).items() if k not in MS_CONFIGURED_BOT}
+                if not ta:
+                    continue
+                if "inform status" in ta:
+                    out.append((ms, ia, "ask status", "inform status", "configured-flow"))
+                for ib in MS_UNHANDLED:
+                    bb = _ms_body_sel("user " + ib, ms)
+                    for x in _ms_bot_intents(bb):
+                        if ib != ia and x in ta and _ms_inline_texts(bb).get(x) != ta[x]:
+                            out.append((ms, ia, ib, x, "other-text" if x in _ms_inline_texts(bb) else "no-text"))
+    return out
+
+
+def _ms_inline_family(tier):
+    """Deterministic family "inline bot messages" (multi-step generation): conversation A makes the LLM write a body whose bot
+    step carries its message inline, for a bot intent the configuration has no message for; conversation B - another user,
+    another kind of request - is served afterwards (or between two turns of A) and comes to the same bot intent.  Quick: one
+    member per way B differs (no text / another text / through a configured flow); thorough: every (policy, A, B) found."""
+    base = {"v": 1, "in": [], "out": [], "dialog": True, "exc": False, "ret": 0, "ext": EXT_MS}
+    conv = lambda users, **kw: dict({"init": [], "users": users, "log": False, "stream": False, "temp": None, "mt": None}, **kw)  # noqa: E731
+    seen = set()
+    n = 0
+    for ms, ia, ib, x, how in _ms_inline_plans():
+        key = how if tier == "quick" else (how, ia, ib, ms["bodies"])
+        if key in seen or len(seen) >= 18:
+            continue
+        seen.add(key)
+        ta, tb = _ms_texts(ia, n=2), _ms_texts(ib, n=2)
+        if len(ta) < 2 or not tb:
+            continue
+        api, llm = [("async", "field"), ("onecoro", "kw0"), ("sync", "field")][n % 3]
+        n += 1
+        if n % 2:
+            # A, then B, then a third user with A's kind of request (gets A's text in both runs: nothing to see there)
+            yield {"leg": "seq", "config": dict(base, ms=ms), "llm": llm, "api": api, "convs": [conv([ta[0]]), conv([tb[0]]), conv([ta[1]])], "order": [0, 0, 0]}
+        else:
+            # A1 B1 A2: B is served between two turns of A, A goes on with B's kind of request
+            yield {"leg": "seq", "config": dict(base, ms=ms), "llm": llm, "api": api, "convs": [conv([ta[0], tb[0]]), conv([tb[-1]], log=True)], "order": [0, 1, 0]}
+
+
 def enumerate_cases(tier):
     yield from _ms_family(tier)
+    yield from _ms_inline_family(tier)
+    yield from _shift_family(tier)
     yield from _between_family(tier)
     yield from _disjoint_family(tier)
     shared = _v2_shared_names()
@@ -2094,7 +2476,8 @@ def strategy(tier):
     shared = _v2_shared_names()
     v2 = _v2_case(False) if not shared else st.one_of(_v2_case(False), _v2_case(False), _v2_case(True)) if shared != "fixed" else st.one_of(_v2_case(False), _v2_case(True), _v2_case(True))
     # Colang 2.x turns are an order of magnitude slower than Colang 1.0 ones: one case in nine
-    return st.one_of(*([_seq_case(llms)] * len(conc) + conc + [v2]))
+    seq = st.one_of(*([_seq_case(llms)] * 5 + [_shift_case(llms)]))
+    return st.one_of(*([seq] * len(conc) + conc + [v2]))
 
 
 def budget(tier):
